@@ -68,6 +68,21 @@ def _snap(repo, p):
             "integral": R.tp_is_integral(p), "form": R.tp_form(p)}
 
 
+def _edge_justified(q, exp_instant):
+    """A field printed as exactly its upper bound (second or minute 60.0) is
+    what IEEE `divmod(x, 60)` returns for a tiny negative x; it is tolerated
+    (R1) only where the exact result lies within 4e-15 below the boundary -
+    anything further below has a representable remainder under 60."""
+    off = (q._time_zone._hours * 60 + q._time_zone._minutes) * 60
+    sod = (exp_instant + off) % 86400
+    for val, unit in ((q._second_of_minute, 1), (q._minute_of_hour, 60)):
+        if val is not None and val >= 60:
+            r = (sod / unit) % 60
+            if val > 60 or 60 - r > F(4, 10 ** 15):
+                return False
+    return True
+
+
 def _check_result(ctx, repo, tag, snap, d_len, d_integral, d_key, d_units,
                   q, exc):
     mode = snap["mode"]
@@ -109,6 +124,10 @@ def _check_result(ctx, repo, tag, snap, d_len, d_integral, d_key, d_units,
                 if (s is not None and s >= 60) or (m is not None and m >= 60):
                     ctx.extra["float_edge_observations"] = ctx.extra.get(
                         "float_edge_observations", 0) + 1
+                    if not _edge_justified(q, exp):
+                        prob = "a field sits on its upper bound (60) " \
+                            "although the exact result is not within " \
+                            "rounding of it"
     if prob:
         ctx.violation(tag + ".wrong", "%s: %s; p=%r d=%r got=%r expected "
                       "instant=%s mode=%s" % (
@@ -212,6 +231,13 @@ def install(ctx, repo, probes):
                           after=R.tp_key(p))
             return
         got = R.tp_instant(mode, p)
+        if not integral and not _edge_justified(p, inst):
+            ctx.violation("tick_over.invalid", "_tick_over left a field on "
+                          "its upper bound (60) although the exact value is "
+                          "not within rounding of it: %r from %r" % (
+                              R.tp_key(p), key), before=key,
+                          after=R.tp_key(p))
+            return
         if (integral and got != inst) or abs(got - inst) > TOL:
             ctx.violation("tick_over.instant", "_tick_over moved the instant "
                           "by %s s: %r -> %r (mode %s)" % (
@@ -293,6 +319,37 @@ def workload(ctx, repo):
                         ctx.case = case
                         ctx.ev("cases.sweep")
                         run_case(ctx, repo, case)
+    # decimal fractions that cancel: in decimal the result falls exactly on
+    # a whole minute (or second), in binary a few ulp beside it - on either
+    # side of the carry
+    for k in range(3000 if ctx.tier == "quick" else 9000):
+        if not ctx.mine(k):
+            continue
+        digits = rng.choice((1, 2, 2, 3))
+        a = rng.randrange(1, 60 * 10 ** digits) / 10.0 ** digits
+        whole = rng.choice((0, 60, 120, 3600, 86400, 59, 1))
+        sign = rng.choice((-1, -1, 1))
+        kw = gen.rand_tp(rng, "gregorian", integral=True, form="hms")
+        if kw.get("hour_of_day") == 24 or "second_of_minute" not in kw:
+            continue
+        if sign < 0:
+            # p has the fraction, d takes it away (and whole units more)
+            kw["second_of_minute"] = int(a)
+            kw["second_of_minute_decimal"] = a - int(a)
+            dkw = {"seconds": -(whole + a)}
+        else:
+            b = 60 - a
+            kw["second_of_minute"] = int(a)
+            kw["second_of_minute_decimal"] = a - int(a)
+            dkw = {"seconds": whole + b}
+        case = {"op": rng.choice(("add", "radd")) if sign > 0 or
+                rng.random() < 0.5 else "sub", "mode": "gregorian",
+                "p": kw, "d": dkw}
+        if case["op"] == "sub":
+            case["d"] = {"seconds": -dkw["seconds"]}
+        ctx.case = case
+        ctx.ev("cases.decimal-cancel")
+        run_case(ctx, repo, case)
     n = 9000 if ctx.tier == "quick" else 40000
     for k in range(n):
         mode = rng.choice(R.MODES) if rng.random() < 0.6 else "gregorian"
